@@ -30,6 +30,10 @@ Inductive paccess :=
 (* the objects stored by the harness have one attribute holding another object: its identity *)
 Definition twin_of (x : N) : N := (x + 1001)%N.
 Definition get_name (twin : bool) (x : N) : N := if twin then twin_of x else x.
+(* the identity standing for Python's None when it is stored as a value: a perfectly ordinary value of a Local
+   attribute (an attribute bound to None is BOUND), but on top of a LocalStack it is what the stack closure of
+   LocalProxy tests for, so a stack proxy whose top is None reports itself unbound (the code's behaviour) *)
+Definition none_id : N := 9000%N.
 
 Inductive op :=
 | OpSet (v : nat) (name val : N)      (* local.name = val *)
@@ -90,7 +94,7 @@ Definition conv_stack (twin : bool) (o : out) : N + out :=
   match o with
   | OVal x =>
       match gco_stack with
-      | GcoStack TIsNone => inl (get_name twin x)
+      | GcoStack TIsNone => if N.eqb x none_id then inr ORuntimeError else inl (get_name twin x)
       | GcoStack TFalsy => if truthy x then inl (get_name twin x) else inr ORuntimeError
       | _ => inr OStuck
       end
@@ -290,7 +294,11 @@ Definition bound_of (look : nat -> option obj) (d : pdesc) : option N :=
   match d with
   | PLocal v name _ => match look (lvar v) with Some (ODict dd) => dict_get dd name | _ => None end
   | PStack v tw _ => match look (svar v) with
-                     | Some (OList l) => option_map (get_name tw) (last_opt l)
+                     | Some (OList l) =>
+                         match last_opt l with
+                         | Some x => if N.eqb x none_id then None else Some (get_name tw x)
+                         | None => None
+                         end
                      | _ => None end
   end.
 Definition bound_in (m : list (nat * obj)) (d : pdesc) : option N := bound_of (rget m) d.
